@@ -18,14 +18,14 @@ func init() {
 		Explanation: "Decided (structural necessary conditions, all on go/ssa of the current tree). " +
 			"J-verify: (chain) every return of jsonsign.(*VerifyRequest).Verify whose error may be nil is dominated by the success edge of ParseSigMap, ParsePayloadMap, FindAndParsePublicKeyBlob and VerifySignature applied to Verify's own receiver, and a step that writes a request field precedes every step that reads it (order is derived from the steps' field read/write sets, not frozen); " +
 			"(signature) in VerifySignature every possibly-true return is dominated by err==nil of (*packet.PublicKey).VerifySignature; the hash handed to it is created in the function and is fed only by Write calls whose argument is one field of the request (the payload field), at least one of which precedes the verification; the signature packet derives from exactly one request field (the signature field); the verifying key is a load of one request field (the key field); " +
-			"(writers, module-wide, by field identity) the key field is stored only by a VerifyRequest method, with a value derived from a blob.Fetcher.Fetch of the signer-ref field, on the success edge of the fetch and of every fallible call in between, and every nil-error return of that method is preceded by the store; the signer-ref field and PayloadMap are stored only from a map json.Unmarshal'ed from one and the same request field (the payload-JSON field), the signer under a constant key; the signature field is stored only from the single constant key of a map Unmarshal'ed from the signature-bytes field, and that function returns true only under len(map)==1 on the Unmarshal success edge; SignerKeyId is stored only on the success edge of the cryptographic verification with a value derived from the key field; " +
+			"(writers, module-wide, by field identity) the key field is stored only by a VerifyRequest method, with a value derived from a blob.Fetcher.Fetch of the signer-ref field, on the success edge of the fetch and of every fallible call in between, and every nil-error return of that method is preceded by the store; the signer-ref field and PayloadMap are stored only from a map json.Unmarshal'ed from one and the same request field (the payload-JSON field), the signer under a constant key; the signature field is stored only from the single constant key of a map Unmarshal'ed from the signature-bytes field, and that function returns true only under len(map)==1 on the Unmarshal success edge; SignerKeyId is stored only on the success edge of the cryptographic verification with a value derived from the key field; crypto.Hash.New on the packet's hash id is reachable only through an edge on which that id equals a constant (white list; New panics for an id that is not linked in); " +
 			"(split) the payload, payload-JSON and signature-bytes fields are stored only in NewVerificationRequest, as doc[:i], doc[:i+1] (with '}' stored at index i) and a value derived from doc[i+1:], where doc is the document argument and i is the result of bytes/strings.LastIndex(doc, constant separator), each slice on the i != -1 edge; the signature JSON key occurs, quoted and followed by a colon, inside that separator. " +
-			"J-index: every module function outside package jsonsign that returns a *VerifyRequest returns, together with a possibly-nil error, only a request on which Verify returned nil (dominance); every caller of a function taking a *VerifyRequest parameter passes its own such parameter or a request verified that way; every read of an exported VerifyRequest field outside package jsonsign is on a parameter (covered by the callers rule) or on a request whose Verify / verifier call is known to have succeeded at the read; in (*Index).populateMutationMapForSchema every path on which the blob type is permanode or claim reaches a possibly-nil-error return only through a successful verifier call (the verifier's own error may be returned). " +
+			"J-index: every module function outside package jsonsign that returns a *VerifyRequest returns, together with a possibly-nil error, only a request on which Verify returned nil (dominance); every caller of a function taking a *VerifyRequest parameter passes its own such parameter or a request verified that way; every read of an exported, non-error VerifyRequest field outside package jsonsign is on a parameter (covered by the callers rule) or on a request whose Verify / verifier call is known to have succeeded at the read (err==nil edge, or - only if Verify is found to mirror a non-nil result into the request's error field from a literal deferred before the first step - that field found nil after the call); at every call of Verify outside package jsonsign the verdict decides a branch or is returned; in (*Index).populateMutationMapForSchema every path on which the blob type is permanode or claim reaches a possibly-nil-error return only through a successful verifier call (the verifier's own error may be returned). " +
 			"J-sign: in (*SignRequest).Sign the bytes handed to openpgp.ArmoredDetachSign are exactly the string placed before the separator in the returned document, the text between them is the separator NewVerificationRequest searches for, the signature text derives from the armor buffer and is followed by '\"}', and the signing entity is looked up from the public key fetched under the same JSON key the verifier reads the signer from. " +
 			"NOT decided: correctness of OpenPGP, armor and JSON decoding; the outcome of any particular byte substitution, insertion or deletion; that distinct documents cannot share payload bytes; key-ring contents; anything about signature times; that reArmor inverts the single-line armor for every signature; whether callers hold on to a request after a later failed Verify.",
 		RuleDocs: map[string]string{
 			"J-verify": "dominance + value dependence over jsonsign.VerifyRequest: Verify's success return behind the four steps (order from field read/write sets); VerifySignature's true return behind packet.PublicKey.VerifySignature==nil over a hash fed only with the payload field; module-wide writers of the key/signer/signature/payload fields; the LastIndex split in NewVerificationRequest",
-			"J-index":  "who-may-read / who-may-pass: every *VerifyRequest crossing a function boundary or having an exported field read outside package jsonsign is one on which Verify is known to have returned nil; signed blob types are dispatched through the verifier in the indexer",
+			"J-index":  "who-may-read / who-may-pass: every *VerifyRequest crossing a function boundary or having an exported field read outside package jsonsign is one on which Verify is known to have returned nil; no caller of Verify ignores its verdict; signed blob types (permanode, claim) are dispatched through the verifier in the indexer",
 			"J-sign":   "agreement between Sign and the verifier: signed bytes == bytes before the separator, same separator constant, same signer JSON key",
 		},
 		Run:       runC16,
